@@ -14,6 +14,12 @@ FAMS = ['sq', 'poly3', 'lin']
 FAM_POOL = ['sq', 'sq', 'sq', 'poly3', 'poly3', 'poly3', 'lin']
 APIS_DATASET = ['avg', 'evaluator', 'mime', 'domains', 'cluster']
 NUM_DOMAINS = 3
+# algorithm-level probes (real agnostic_federated_averaging / mime rounds): everything except the padded-batch
+# geometry of the statistics pass and the regularizer is fixed, so that compiled shapes are reused across cases
+ALGO_GEOMS = [[1, 1], [3, 2], [16, 1], [2, 1], [8, 3], [5, 2]]
+ALGO_INIT_WEIGHTS = [0.25, 0.25, 0.5]
+ALGO_DOMAIN_LR = 0.0625
+ALGO_TRAIN_BS = 4
 
 
 def tol(S, model):
@@ -33,7 +39,9 @@ class C06(core.Property):
           'evaluate_average_loss, AverageLossEvaluator, Mime create_grads_for_each_client + server combination, '
           'agnostic create_domain_metrics_for_each_client, HypCluster _cluster_losses on two layouts of the same '
           'datasets: padded_batch(bs in 1..9, buckets in 1..3), manual paddings incl. fully padded batches, '
-          'plain unpadded batches); non-trivial = has a padding row or more than one batch AND every wrong variant '
+          'plain unpadded batches; algorithm-level probes: real agnostic_federated_averaging (1-2 rounds, with/without '
+          'regularizer) and mime (1 round) under 2-3 padded-batch geometries of their statistics pass, domain weights / '
+          'server gradient / params compared across geometries and with the reference from the unpadded examples); non-trivial = has a padding row or more than one batch AND every wrong variant '
           '(mask ignored, rows counted instead of sum(mask), regularizer per batch) differs by > 100x tolerance; '
           'distinct by case digest')
   TRUSTED = ['jax.grad linearity (per-example losses/gradients computed by JAX on single unpadded examples are the '
@@ -54,10 +62,11 @@ class C06(core.Property):
     import jax
     import jax.numpy as jnp
     from fedjax.core import client_datasets as cds
-    from fedjax.core import models, regularizers, tree_util
+    from fedjax.core import models, optimizers, regularizers, tree_util
     from fedjax.algorithms import mime, agnostic_fed_avg, hyp_cluster
     self.jax, self.jnp, self.cds, self.models = jax, jnp, cds, models
     self.regs, self.tu, self.mime, self.afa, self.hc = regularizers, tree_util, mime, agnostic_fed_avg, hyp_cluster
+    self.opts = optimizers
     self.MK = cds.EXAMPLE_MASK_KEY
     self.rng = jax.random.PRNGKey(7)
 
@@ -235,6 +244,28 @@ class C06(core.Property):
       case['alpha'] = [rng.choice([0.25, 0.5, 1, 2]) for _ in range(NUM_DOMAINS)]
     return case
 
+  def _algo_case(self, rng, tier, api=None, reg='random'):
+    api = api or rng.choice(['afa', 'afa', 'mime-algo'])
+    fam = rng.choice(['sq', 'sq', 'lin'])
+    dx = 2
+    nclients = rng.choice([1, 2, 3])
+    clients = []
+    for _ in range(nclients):
+      clients.append([self._example(rng, dx, fam) for _ in range(rng.choice([1, 2, 3, 5, 7, 9]))])
+    if api == 'mime-algo' and rng.random() < 0.2:
+      clients.append([])                              # an empty client contributes weight 0
+    flat = [e for c in clients for e in c]
+    if api == 'afa':
+      for j in range(NUM_DOMAINS):                     # every domain is present in the cohort
+        if not any(e[dx + 1] == j for e in flat):
+          clients[0].append(self._example(rng, dx, fam)[:dx + 1] + [j])
+    if reg == 'random':
+      reg = rng.choice([None, ['l2', 0.25], ['l2', 0.25], ['custom']])
+    k = 3 if tier == 'thorough' else 2
+    return {'kind': 'algo', 'api': api, 'fam': fam, 'dx': dx, 'params': self._params(rng, dx, fam), 'reg': reg,
+            'clients': clients, 'geoms': rng.sample(ALGO_GEOMS, k),
+            'rounds': rng.choice([1, 2]) if api == 'afa' else 1}
+
   def gen_cases(self, rng, tier):
     # the excluded point of the finiteness hypothesis (known finding) is probed on every run
     yield {'kind': 'batch', 'api': 'grad', 'fam': 'log', 'dx': 2, 'params': {'w': [1, 2], 'b': 0.0}, 'reg': None,
@@ -255,8 +286,15 @@ class C06(core.Property):
             if api == 'domains':
               case['alpha'] = [1, 0.5, 2]
             yield case
-    n = {'quick': 200, 'thorough': 2500}.get(tier, 400)
+    n = {'quick': 160, 'thorough': 2300}.get(tier, 300)
+    every = {'quick': 11, 'thorough': 25}.get(tier, 12)
+    # the algorithm-level probes come first (one of each with a regularizer), then one every `every` cases
+    yield self._algo_case(rng, tier, api='afa', reg=['l2', 0.25])
+    yield self._algo_case(rng, tier, api='mime-algo', reg=['l2', 0.25])
     for i in range(n):
+      if i % every == every - 1:
+        yield self._algo_case(rng, tier)
+        continue
       r = rng.random()
       if r < 0.3:
         yield self._batch_case(rng)
@@ -278,6 +316,25 @@ class C06(core.Property):
       for i, r in enumerate(rows):
         if not r[-1] and any(v != 0 for v in r[:-1]):
           yield {**case, 'rows': rows[:i] + [[0] * (len(r) - 1) + [False]] + rows[i + 1:]}
+      return
+    if case['kind'] == 'algo':
+      clients = case['clients']
+      if case['rounds'] > 1:
+        yield {**case, 'rounds': 1}
+      if len(case['geoms']) > 2:
+        for drop in range(len(case['geoms'])):
+          yield {**case, 'geoms': [g for i, g in enumerate(case['geoms']) if i != drop]}
+      if len(clients) > 1:
+        for drop in range(len(clients)):
+          yield {**case, 'clients': [c for i, c in enumerate(clients) if i != drop]}
+      for ci, c in enumerate(clients):
+        if len(c) > 1:
+          for drop in range(len(c)):
+            yield {**case, 'clients': clients[:ci] + [c[:drop] + c[drop + 1:]] + clients[ci + 1:]}
+      for gi, g in enumerate(case['geoms']):
+        for cand in ([1, 1], [16, 1]):
+          if g != cand and cand not in case['geoms']:
+            yield {**case, 'geoms': case['geoms'][:gi] + [cand] + case['geoms'][gi + 1:]}
       return
     clients, layouts = case['clients'], case['layouts']
     if len(clients) > 1:
@@ -364,7 +421,185 @@ class C06(core.Property):
   def evaluate(self, case, ctx):
     if case['kind'] == 'batch':
       return self._eval_batch(case, ctx)
+    if case['kind'] == 'algo':
+      return self._eval_algo(case, ctx)
     return self._eval_dataset(case, ctx)
+
+  # ------------------------------------------------------------------------------------------ algorithm-level probes
+
+  def _algorithm(self, case, geom):
+    """the real federated algorithm, cached per (api, loss, regularizer, geometry) so compiled shapes are reused"""
+    cds, opts = self.cds, self.opts
+    fam, dx = case['fam'], case['dx']
+    reg = self.make_reg(case['reg'], dx)
+    train_hp = cds.ShuffleRepeatBatchHParams(batch_size=ALGO_TRAIN_BS, num_epochs=1, seed=0)
+    stat_hp = cds.PaddedBatchHParams(batch_size=geom[0], num_batch_size_buckets=geom[1])
+
+    def make():
+      if case['api'] == 'afa':
+        return self.afa.agnostic_federated_averaging(
+            per_example_loss=self.pel[fam], client_optimizer=opts.sgd(0.01), server_optimizer=opts.sgd(1.0),
+            client_batch_hparams=train_hp, domain_batch_hparams=stat_hp,
+            init_domain_weights=list(ALGO_INIT_WEIGHTS), domain_learning_rate=ALGO_DOMAIN_LR,
+            init_domain_window=[1.0] * NUM_DOMAINS, regularizer=reg)
+      return self.mime.mime(per_example_loss=self.pel[fam], base_optimizer=opts.sgd(0.01, momentum=0.9),
+                            client_batch_hparams=train_hp, grads_batch_hparams=stat_hp,
+                            server_learning_rate=1.0, regularizer=reg)
+    return self._cached(('algo', case['api'], fam, case['reg'], dx, geom), make)
+
+  def _eval_algo(self, case, ctx):
+    api, fam, dx = case['api'], case['fam'], case['dx']
+    d = dx + 1
+    jax = self.jax
+    params0 = self.mk_params(case['params'])
+    reg = self.make_reg(case['reg'], dx)
+    clients = case['clients']
+    dss = []
+    for ex in clients:
+      x, y, dom = self._arrays(ex, dx)
+      dss.append(self.cds.ClientDataset({'x': x, 'y': y, 'domain_id': dom}))
+    cl = [(b'c%d' % i, ds, jax.random.PRNGKey(i)) for i, ds in enumerate(dss)]
+    problems, corr, key = [], [], None
+
+    def fail(k, msg):
+      nonlocal key
+      key = key or f'C06/{api}/{k}'
+      problems.append(msg)
+
+    def close(a, b, rtol=1e-4, atol=1e-6):
+      a, b = np.asarray(a, dtype=np.float64), np.asarray(b, dtype=np.float64)
+      return a.shape == b.shape and bool(np.all(np.isfinite(a))) and bool(
+          np.all(np.abs(a - b) <= rtol * np.maximum(np.abs(a), np.abs(b)) + atol * max(1.0, float(np.max(np.abs(b), initial=0.0)))))
+
+    def per_client_values(params):
+      out = []
+      for ex in clients:
+        x, y, dom = self._arrays(ex, dx)
+        l, g = self.per_example(fam, params, x, y)
+        out.append((l, g, [int(v) for v in dom]))
+      return out
+
+    runs = []        # per geometry: list over rounds of observation dicts
+    for geom in case['geoms']:
+      try:
+        alg = self._algorithm(case, geom)
+        st = alg.init(params0)
+        obs = []
+        for rnd in range(case['rounds']):
+          prev = st
+          st, _ = alg.apply(st, cl)
+          o = {'params': self.flat(st.params), 'prev_params': prev.params}
+          if api == 'afa':
+            o['dw'] = [float(v) for v in np.asarray(st.domain_weights)]
+            o['prev_dw'] = [float(v) for v in np.asarray(prev.domain_weights)]
+            o['counts'] = [float(v) for v in np.asarray(st.domain_window[-1])]
+          else:
+            trace = jax.tree_util.tree_leaves(st.opt_state)
+            tr = jax.tree_util.tree_unflatten(jax.tree_util.tree_structure(st.params), trace)
+            o['server_grads'] = self.flat(tr)       # momentum trace after the first round = server_grads
+          obs.append(o)
+        runs.append(obs)
+      except Exception as e:
+        fail('raised', f'{api} with statistics-pass geometry {geom} raised {type(e).__name__}: {str(e)[:160]}')
+        runs.append(None)
+
+    # ---- reference from the unpadded per-example values (the property, stated directly); its failures are
+    # reported after the direct geometry comparison so that a geometry dependence keeps its own classifier key
+    ref_fails = []
+    fail_now = fail
+    fail = lambda k, msg: ref_fails.append((k, msg))
+    refs = []
+    for gi, obs in enumerate(runs):
+      if obs is None:
+        refs.append(None)
+        continue
+      ref_rounds = []
+      for rnd, o in enumerate(obs):
+        pcv = per_client_values(o['prev_params'])
+        if api == 'afa':
+          sums = [0.0] * NUM_DOMAINS
+          cnts = [0] * NUM_DOMAINS
+          for l, _, dom in pcv:
+            for v, j in zip(l, dom):
+              sums[j] += v
+              cnts[j] += 1
+          mean = [sums[j] / cnts[j] if cnts[j] else 0.0 for j in range(NUM_DOMAINS)]
+          w = [pw * math.exp(ALGO_DOMAIN_LR * m) for pw, m in zip(o['prev_dw'], mean)]
+          tot = sum(w)
+          ref = {'dw': [v / tot for v in w], 'counts': [float(c) for c in cnts], 'mean_domain_loss': mean}
+          if not close(o['counts'], ref['counts'], 0, 0):
+            fail('domain-counts', f'round {rnd + 1}, geometry {case["geoms"][gi]}: domain counts {o["counts"]} != '
+                                  f'{ref["counts"]} of the raw examples')
+          if not close(o['dw'], ref['dw']):
+            fail('domain-weights', f'round {rnd + 1}, geometry {case["geoms"][gi]}: domain weights {o["dw"]} != '
+                                   f'{ref["dw"]} = exponentiated-gradient step on the per-domain mean losses '
+                                   f'{mean} of the unpadded examples')
+        else:
+          _, r = self.reg_values(reg, o['prev_params'], d)
+          n = sum(len(l) for l, _, _ in pcv)
+          fg = [(sum(gi_[k] for _, g, _ in pcv for gi_ in g) / n + float(r[k])) if n else 0.0 for k in range(d)]
+          ref = {'server_grads': fg}
+          if not close(o['server_grads'], fg):
+            fail('server-grads', f'geometry {case["geoms"][gi]}: server full-batch gradient {o["server_grads"]} != '
+                                 f'{fg} = mean per-example gradient of the unpadded examples + regularizer gradient')
+        ref_rounds.append(ref)
+      refs.append(ref_rounds)
+
+    # ---- geometry independence, judged directly between the runs
+    fail = fail_now
+    good = [(g, o) for g, o in zip(case['geoms'], runs) if o is not None]
+    for (g1, o1), (g2, o2) in zip(good, good[1:]):
+      for rnd in range(case['rounds']):
+        for name in ('dw', 'server_grads', 'params'):
+          if name in o1[rnd] and not close(o1[rnd][name], o2[rnd][name]):
+            what = {'dw': 'domain weights', 'server_grads': 'server gradient', 'params': 'server params'}[name]
+            fail('geometry', f'round {rnd + 1}: {what} depend on the padded batch geometry of the statistics pass: '
+                             f'{g1} -> {o1[rnd][name]}, {g2} -> {o2[rnd][name]}')
+            break
+
+    for k, msg in ref_fails:
+      fail(k, msg)
+
+    # ---- model: the statistics pass of every round on the materialised padded batches
+    model_out = []
+    for gi, (geom, obs) in enumerate(zip(case['geoms'], runs)):
+      if obs is None:
+        continue
+      for rnd, o in enumerate(obs):
+        rows_c = []
+        for ds in dss:
+          bl = list(ds.padded_batch(batch_size=geom[0], num_batch_size_buckets=geom[1]))
+          rows_c.append([self._model_rows(fam, o['prev_params'], b) for b in bl])
+        if api == 'afa':
+          ans = ctx.drv.ask([line('c06.domains', NUM_DOMAINS, rc) for rc in rows_c])
+          sl = [sum(F(a[0][j]) for a in ans) for j in range(NUM_DOMAINS)]
+          sn = [sum(F(a[1][j]) for a in ans) for j in range(NUM_DOMAINS)]
+          mean = [float(sl[j] / sn[j]) if sn[j] else 0.0 for j in range(NUM_DOMAINS)]
+          w = [pw * math.exp(ALGO_DOMAIN_LR * m) for pw, m in zip(o['prev_dw'], mean)]
+          mw = [v / sum(w) for v in w]
+          model_out.append({'geom': geom, 'round': rnd + 1, 'domain_weights': mw, 'domain_num': [float(v) for v in sn]})
+          if not close(o['dw'], mw) or not close(o['counts'], [float(v) for v in sn], 0, 0):
+            corr.append(f'round {rnd + 1}, geometry {geom}: implementation domain weights {o["dw"]} / counts '
+                        f'{o["counts"]} vs model {mw} / {[float(v) for v in sn]}')
+        else:
+          _, r = self.reg_values(reg, o['prev_params'], d)
+          a = ctx.drv.ask([line('c06.fullgrad', d, r, rows_c)])[0]
+          mg = None if a is None else [float(v) for v in a]
+          model_out.append({'geom': geom, 'server_grads': mg})
+          if mg is None or not close(o['server_grads'], mg):
+            corr.append(f'geometry {geom}: implementation server gradient {o["server_grads"]} vs model {mg}')
+
+    n_ex = sum(len(c) for c in clients)
+    multi_batch = any(-(-len(c) // g[0]) > 1 for c in clients for g in case['geoms'])
+    tags = (f'api={api}', f'fam={fam}', 'reg' if case['reg'] else 'noreg', f'clients={len(clients)}',
+            f'rounds={case["rounds"]}', 'algo-level')
+    for obs in runs:
+      if obs:
+        for o in obs:
+          o.pop('prev_params', None)
+    return Outcome(oracle_fail='; '.join(problems[:3]) or None, corr_fail='; '.join(corr[:3]) or None, key=key,
+                   nontrivial=bool(case['reg']) and multi_batch and n_ex > 1, tags=tags,
+                   detail={'impl': runs, 'reference': refs, 'model': model_out})
 
   def _eval_batch(self, case, ctx):
     fam, dx, api = case['fam'], case['dx'], case['api']
